@@ -3506,6 +3506,17 @@ func synthPages() map[string][]synthFragment {
 		line(&fr, &k, 72, 672, 10, 7)
 		pages["a pull quote beside body lines"] = fr
 	}
+	// a masthead in 48pt type whose box reaches up over a small note at the left, with a date at the right
+	{
+		fr := []synthFragment{
+			{"Vol.", 50, 700, 22, 10, 10}, {"12", 76, 700, 12, 10, 10},
+			{"June", 420, 688, 26, 10, 10}, {"2024", 450, 688, 24, 10, 10},
+			{"DAILY", 40, 664, 150, 48, 48}, {"NEWS", 205, 664, 130, 48, 48},
+			{"Council", 40, 620, 40, 10, 10}, {"approves", 84, 620, 46, 10, 10}, {"budget", 134, 620, 36, 10, 10},
+			{"after", 40, 608, 26, 10, 10}, {"long", 70, 608, 22, 10, 10}, {"debate", 96, 608, 36, 10, 10},
+		}
+		pages["a masthead over two notes"] = fr
+	}
 	return pages
 }
 
@@ -3518,7 +3529,7 @@ func sortedNonSpace(s string) string {
 // R9.11 [C09]
 func ruleLayoutKeepsCharactersEvaluated(c *eng.Ctx) {
 	const R = "R9.11-LAYOUT-KEEPS-CHARACTERS-EVALUATED"
-	c.Rule(R, "the line, column, paragraph, block and reading-order detectors of package layout with their default configuration, and the Analyzer, evaluated on synthetic pages (one column with ragged lines, two columns under a spanning title, a heading with paragraphs and a list, single-word lines, three columns, a hanging-indent list under a title, a sub-heading beside a gap of the other column, a list across a column break, a pull quote beside body lines; every line wider than the two recorded size filters): the text the result renders (GetText), the fragments it hands out (GetAllFragments) and the elements of the analysis hold, as a multiset, exactly the non-white-space characters of the fragments", 1, 0)
+	c.Rule(R, "the line, column, paragraph, block and reading-order detectors of package layout with their default configuration, and the Analyzer, evaluated on synthetic pages (one column with ragged lines, two columns under a spanning title, a heading with paragraphs and a list, single-word lines, three columns, a hanging-indent list under a title, a sub-heading beside a gap of the other column, a list across a column break, a pull quote beside body lines, a masthead whose box reaches over two small notes; every line wider than the two recorded size filters): the text the result renders (GetText), the fragments it hands out (GetAllFragments) and the elements of the analysis hold, as a multiset, exactly the non-white-space characters of the fragments", 1, 0)
 	fragT := c.P.NamedType("text", "TextFragment")
 	if fragT == nil {
 		c.Ok(R, "layout#detectors", token.NoPos, "text.TextFragment not found: not evaluated")
@@ -4313,4 +4324,551 @@ func ruleASCIIChainsEvaluated(c *eng.Ctx) {
 		return
 	}
 	c.Check(bad == "", R, "core.(*Stream).Decode#chains", dec.Pos(), fmt.Sprintf("%d filter specifications evaluated", n), "a filter chain is not undone stage by stage in array order: "+bad)
+}
+
+// ---------------------------------------------------------------------------------------------------------------
+// R7.14 ToUnicode CMaps, read from their program text to the text they give.
+
+// R7.14 [C07, C01]
+func ruleCMapProgramsEvaluated(c *eng.Ctx) {
+	const R = "R7.14-CMAP-PROGRAMS-EVALUATED"
+	c.Rule(R, "font.ParseToUnicodeCMap followed by (*CMap).LookupString, evaluated on small CMap programs: bfchar and bfrange (offset and array targets) with code spaces of one, two, three and four bytes, multi-character and supplementary-plane targets, written with line breaks and on one line, and the same program stored behind an ASCIIHexDecode filter: the code string decodes to the text the program specifies", 1, 0)
+	parse := c.P.FuncExact("font.ParseToUnicodeCMap")
+	lookup := c.P.FuncExact("font.(*CMap).LookupString")
+	streamT, dictT, nameT := c.P.NamedType("core", "Stream"), c.P.NamedType("core", "Dict"), c.P.NamedType("core", "Name")
+	if parse == nil || lookup == nil || streamT == nil || dictT == nil || nameT == nil || len(parse.Params) != 1 || len(lookup.Params) != 2 {
+		c.Ok(R, "font.ParseToUnicodeCMap", token.NoPos, "CMap entry points not found: not evaluated")
+		return
+	}
+	wrap := func(codespace, body string) string {
+		return "/CIDInit /ProcSet findresource begin\n12 dict begin\nbegincmap\n/CMapName /Adobe-Identity-UCS def\n/CMapType 2 def\n1 begincodespacerange\n" + codespace + "\nendcodespacerange\n" + body + "\nendcmap\nCMapName currentdict /CMap defineresource pop\nend\nend\n"
+	}
+	type tc struct {
+		name, prog string
+		codes      []byte
+		want       string
+	}
+	cases := []tc{
+		{"one-byte bfchar", wrap("<00> <FF>", "2 beginbfchar\n<41> <03A9>\n<42> <0416>\nendbfchar"), []byte{0x41, 0x42}, "ΩЖ"},
+		{"two-byte bfchar", wrap("<0000> <FFFF>", "2 beginbfchar\n<0041> <03A9>\n<0142> <0418>\nendbfchar"), []byte{0x00, 0x41, 0x01, 0x42}, "ΩИ"},
+		{"two-byte bfrange with offset", wrap("<0000> <FFFF>", "1 beginbfrange\n<0010> <0012> <0041>\nendbfrange"), []byte{0x00, 0x10, 0x00, 0x12}, "AC"},
+		{"bfrange with array targets", wrap("<0000> <FFFF>", "1 beginbfrange\n<0020> <0021> [<00660069> <D83DDE00>]\nendbfrange"), []byte{0x00, 0x20, 0x00, 0x21}, "fi\U0001F600"},
+		{"three-byte code space", wrap("<000000> <FFFFFF>", "2 beginbfchar\n<000041> <03A9>\n<000142> <0416>\nendbfchar"), []byte{0x00, 0x00, 0x41, 0x00, 0x01, 0x42}, "ΩЖ"},
+		{"four-byte code space", wrap("<00000000> <FFFFFFFF>", "1 beginbfchar\n<00000041> <0418>\nendbfchar"), []byte{0x00, 0x00, 0x00, 0x41}, "И"},
+		{"on one line", strings.ReplaceAll(wrap("<0000> <FFFF>", "2 beginbfchar\n<0041> <03A9>\n<0042> <0416>\nendbfchar"), "\n", " "), []byte{0x00, 0x41, 0x00, 0x42}, "ΩЖ"},
+		{"CR line endings", strings.ReplaceAll(wrap("<0000> <FFFF>", "1 beginbfrange\n<0001> <0003> <0061>\nendbfrange"), "\n", "\r"), []byte{0x00, 0x01, 0x00, 0x03}, "ac"},
+	}
+	results := map[string]string{}
+	var order []string
+	skipped := ""
+	run := func(name string, prog []byte, filter string, codes []byte, want string) {
+		d := &eng.EMap{M: map[any]any{}}
+		if filter != "" {
+			d.M["Filter"] = &eng.EIface{T: nameT, V: filter}
+			d.Keys = append(d.Keys, "Filter")
+		}
+		st := eng.ZeroOf(streamT).(*eng.EStruct)
+		eng.SetField(st, streamT, "Dict", d)
+		eng.SetField(st, streamT, "Data", eng.BytesOf(prog))
+		loc := &eng.ELoc{V: st}
+		sp := &eng.EPtr{Get: func() any { return loc.V }, Set: func(x any) { loc.V = x }, Loc: loc}
+		ev := eng.NewEvaluator()
+		ev.Steps = 6000000
+		ev.MaxDepth = 30
+		got, err := ev.Call(parse, []any{sp}, 0)
+		order = append(order, name)
+		if err != nil && !err.Panic {
+			skipped = name + ": " + err.Msg
+			return
+		}
+		if err != nil {
+			results[name] = err.Msg
+			return
+		}
+		t, ok := got.(eng.ETuple)
+		if !ok || len(t) != 2 {
+			skipped = "ParseToUnicodeCMap does not return (*CMap, error)"
+			return
+		}
+		if t[1] != nil {
+			results[name] = "the program is refused with an error"
+			return
+		}
+		out, err := ev.Call(lookup, []any{t[0], eng.BytesOf(codes)}, 0)
+		if err != nil && !err.Panic {
+			skipped = name + ": " + err.Msg
+			return
+		}
+		if err != nil {
+			results[name] = err.Msg
+			return
+		}
+		if sv, _ := out.(string); sv != want {
+			results[name] = fmt.Sprintf("codes % X decode to %q, the program says %q", codes, out, want)
+			return
+		}
+		results[name] = ""
+	}
+	for _, t := range cases {
+		if skipped != "" {
+			break
+		}
+		run(t.name, []byte(t.prog), "", t.codes, t.want)
+	}
+	if skipped == "" {
+		t := cases[1]
+		run("the program behind an ASCIIHexDecode filter", []byte(strings.ToUpper(hex.EncodeToString([]byte(t.prog)))+">"), "ASCIIHexDecode", t.codes, t.want)
+	}
+	if os.Getenv("VDEBUG") != "" {
+		fmt.Fprintf(os.Stderr, "R7.14 results=%q skipped=%q\n", results, skipped)
+	}
+	if skipped != "" {
+		c.Ok(R, "font.ParseToUnicodeCMap", parse.Pos(), "not evaluated: "+skipped)
+		return
+	}
+	for _, n := range order {
+		msg := results[n]
+		c.Check(msg == "", R, "font.ParseToUnicodeCMap#"+n, parse.Pos(), "decodes to the text the program specifies", "a ToUnicode CMap ("+n+") does not decode to the text it specifies: "+msg)
+	}
+}
+
+// ---------------------------------------------------------------------------------------------------------------
+// R11.14 what is detected as a page number is removed as one.
+
+// R11.14 [C11]
+func rulePageNumberMatchFollowsDetection(c *eng.Ctx) {
+	const R = "R11.14-PAGE-NUMBER-MATCH-FOLLOWS-DETECTION"
+	c.Rule(R, "layout.textsMatch(text, region text, isPageNumber=true), evaluated on running page-number texts of one to four digits in the styles N, Page N, Page N of M, - N -, N / M: it answers yes exactly where layout.isPageNumberPattern(normalizeForComparison(text)) does - the detection groups the fragments by that test, so a filter that is narrower (a length limit on the raw text) leaves the page numbers of the later pages in the output", 1, 0)
+	match := c.P.FuncExact("layout.textsMatch")
+	isPN := c.P.FuncExact("layout.isPageNumberPattern")
+	norm := c.P.FuncExact("layout.normalizeForComparison")
+	if match == nil || isPN == nil || norm == nil || len(match.Params) != 3 || len(isPN.Params) != 1 || len(norm.Params) != 1 {
+		c.Ok(R, "layout.textsMatch", token.NoPos, "helpers not found with their signatures: not evaluated")
+		return
+	}
+	var texts []string
+	for _, n := range []int{1, 7, 10, 12, 99, 100, 123, 1000} {
+		for _, m := range []int{12, 250} {
+			texts = append(texts, fmt.Sprintf("Page %d of %d", n, m), fmt.Sprintf("%d / %d", n, m))
+		}
+		texts = append(texts, fmt.Sprint(n), fmt.Sprintf("Page %d", n), fmt.Sprintf("- %d -", n), fmt.Sprintf("  %d  ", n))
+	}
+	texts = append(texts, "Chapter One", "Annual Report 2024", "1984 was a year")
+	n, bad, skipped := 0, "", ""
+	for _, t := range texts {
+		ev := eng.NewEvaluator()
+		ev.Steps = 2000000
+		nv, err := ev.Call(norm, []any{t}, 0)
+		var dv, mv any
+		if err == nil {
+			dv, err = ev.Call(isPN, []any{nv}, 0)
+		}
+		if err == nil {
+			mv, err = ev.Call(match, []any{t, "[Page Number]", true}, 0)
+		}
+		if err != nil && !err.Panic {
+			skipped = err.Msg
+			break
+		}
+		n++
+		if err != nil {
+			bad = fmt.Sprintf("%q: %s", t, err.Msg)
+			break
+		}
+		detected, _ := dv.(bool)
+		matched, _ := mv.(bool)
+		if detected != matched {
+			bad = fmt.Sprintf("%q is detected as a page number: %v, but matched for removal: %v", t, detected, matched)
+			break
+		}
+	}
+	if skipped != "" {
+		c.Ok(R, "layout.textsMatch", match.Pos(), "not evaluated: "+skipped)
+		return
+	}
+	c.Check(bad == "", R, "layout.textsMatch#page-numbers", match.Pos(), fmt.Sprintf("%d texts evaluated", n), "removal and detection of page numbers disagree: "+bad+"; running page numbers stay on the pages where they disagree")
+}
+
+// ---------------------------------------------------------------------------------------------------------------
+// R14.18 the element-type filter, read on a small collection.
+
+// R14.18 [C14]
+func ruleElementTypeFilterEvaluated(c *eng.Ctx) {
+	const R = "R14.18-ELEMENT-TYPE-FILTER-EVALUATED"
+	c.Rule(R, "rag.(*ChunkCollection).FilterByElementType, evaluated on a collection of six chunks whose ElementTypes lists and HasTable/HasList/HasImage flags deliberately disagree (a chunk typed List without the flag, a flagged chunk without the type, mixed case, several types, none), for the queries list, LIST, table, image, paragraph and an unknown type: the answer holds exactly the chunks whose ElementTypes list names the type (case-insensitively), in their order", 1, 0)
+	fn := c.P.FuncExact("rag.(*ChunkCollection).FilterByElementType")
+	collT, chunkT, metaT := c.P.NamedType("rag", "ChunkCollection"), c.P.NamedType("rag", "Chunk"), c.P.NamedType("rag", "ChunkMetadata")
+	if fn == nil || collT == nil || chunkT == nil || metaT == nil || len(fn.Params) != 2 {
+		c.Ok(R, "rag.(*ChunkCollection).FilterByElementType", token.NoPos, "filter or chunk types not found: not evaluated")
+		return
+	}
+	type spec struct {
+		id               string
+		types            []string
+		table, list, img bool
+	}
+	specs := []spec{
+		{"c0", []string{"List"}, false, false, false},
+		{"c1", []string{"Paragraph"}, false, true, false},
+		{"c2", []string{"table", "LIST"}, true, false, false},
+		{"c3", nil, true, true, true},
+		{"c4", []string{"Image", "Paragraph"}, false, false, true},
+		{"c5", []string{"Table"}, false, false, false},
+	}
+	mkColl := func() (*eng.EPtr, bool) {
+		var chunks []any
+		for _, sp := range specs {
+			ch := eng.ZeroOf(chunkT).(*eng.EStruct)
+			if !eng.SetField(ch, chunkT, "ID", sp.id) {
+				return nil, false
+			}
+			md := eng.ZeroOf(metaT).(*eng.EStruct)
+			var ts []any
+			for _, t := range sp.types {
+				ts = append(ts, t)
+			}
+			if !eng.SetField(md, metaT, "ElementTypes", eng.SliceOf(ts...)) {
+				return nil, false
+			}
+			eng.SetField(md, metaT, "HasTable", sp.table)
+			eng.SetField(md, metaT, "HasList", sp.list)
+			eng.SetField(md, metaT, "HasImage", sp.img)
+			if !eng.SetField(ch, chunkT, "Metadata", md) {
+				return nil, false
+			}
+			loc := &eng.ELoc{V: ch}
+			chunks = append(chunks, &eng.EPtr{Get: func() any { return loc.V }, Set: func(v any) { loc.V = v }, Loc: loc})
+		}
+		coll := eng.ZeroOf(collT).(*eng.EStruct)
+		if !eng.SetField(coll, collT, "Chunks", eng.SliceOf(chunks...)) {
+			return nil, false
+		}
+		loc := &eng.ELoc{V: coll}
+		return &eng.EPtr{Get: func() any { return loc.V }, Set: func(v any) { loc.V = v }, Loc: loc}, true
+	}
+	idIdx := -1
+	if st, ok := chunkT.Underlying().(*types.Struct); ok {
+		for i := 0; i < st.NumFields(); i++ {
+			if st.Field(i).Name() == "ID" {
+				idIdx = i
+			}
+		}
+	}
+	n, bad, skipped := 0, "", ""
+	for _, q := range []string{"list", "LIST", "table", "image", "paragraph", "footnote"} {
+		coll, ok := mkColl()
+		if !ok || idIdx < 0 {
+			skipped = "chunk fields not found"
+			break
+		}
+		var want []string
+		for _, sp := range specs {
+			for _, t := range sp.types {
+				if strings.EqualFold(t, q) {
+					want = append(want, sp.id)
+					break
+				}
+			}
+		}
+		ev := eng.NewEvaluator()
+		ev.Steps = 1000000
+		got, err := ev.Call(fn, []any{coll, q}, 0)
+		if err != nil && !err.Panic {
+			skipped = err.Msg
+			break
+		}
+		n++
+		if err != nil {
+			bad = fmt.Sprintf("query %q: %s", q, err.Msg)
+			break
+		}
+		var ids []string
+		if rp, ok := got.(*eng.EPtr); ok && rp != nil {
+			if rs, ok := rp.Get().(*eng.EStruct); ok && len(rs.F) > 0 {
+				if sl, ok := rs.F[0].(*eng.ESlice); ok {
+					for _, l := range sl.L {
+						if cp, ok := l.V.(*eng.EPtr); ok && cp != nil {
+							if cs, ok := cp.Get().(*eng.EStruct); ok {
+								id, _ := cs.F[idIdx].(string)
+								ids = append(ids, id)
+							}
+						}
+					}
+				}
+			}
+		}
+		if strings.Join(ids, ",") != strings.Join(want, ",") {
+			bad = fmt.Sprintf("query %q returns the chunks [%s], the chunks whose element types name it are [%s]", q, strings.Join(ids, ","), strings.Join(want, ","))
+			break
+		}
+	}
+	if skipped != "" {
+		c.Ok(R, "rag.(*ChunkCollection).FilterByElementType", fn.Pos(), "not evaluated: "+skipped)
+		return
+	}
+	c.Check(bad == "", R, "rag.(*ChunkCollection).FilterByElementType#predicate", fn.Pos(), fmt.Sprintf("%d queries evaluated", n), "the element-type filter does not return exactly the chunks that satisfy its predicate: "+bad)
+}
+
+// ---------------------------------------------------------------------------------------------------------------
+// RX.TR a buffer that was handed out is not emptied in place.
+
+func truncateAfterHandOutRule(id string, pkgs ...string) func(*eng.Ctx) {
+	return func(c *eng.Ctx) {
+		R := id + "-TRUNCATE-AFTER-HAND-OUT"
+		c.Rule(R, "a slice kept in a field is not cut back to length zero (x = x[:0], to keep its storage) in a function that has just stored that same slice into another value (an element it appended to the results, a struct it built): the next appends write over the elements the other value still shows, so items already emitted change under the reader's hands", 0, 1)
+		inPkgs := map[string]bool{}
+		for _, p := range pkgs {
+			inPkgs[p] = true
+		}
+		n := 0
+		for _, fn := range c.P.ModuleFuncs() {
+			if fn.Blocks == nil || fn.Pkg == nil {
+				continue
+			}
+			sp := eng.ShortPath(fn.Pkg.Pkg.Path())
+			if !inPkgs[sp] && !strings.Contains(sp, eng.PositivePkg) {
+				continue
+			}
+			k := 0
+			eng.Instrs(fn, true, func(in ssa.Instruction) {
+				sl, ok := in.(*ssa.Slice)
+				if !ok || sl.Low != nil || sl.High == nil {
+					return
+				}
+				if hv, isC := eng.ConstInt(sl.High); !isC || hv != 0 {
+					return
+				}
+				ld, ok := sl.X.(*ssa.UnOp)
+				if !ok || ld.Op != token.MUL {
+					return
+				}
+				fa, ok := ld.X.(*ssa.FieldAddr)
+				if !ok {
+					return
+				}
+				// the truncated value goes back into the same field
+				back := false
+				for _, r := range *sl.Referrers() {
+					if st, ok := r.(*ssa.Store); ok && eng.SameValue(st.Addr, fa) {
+						back = true
+					}
+				}
+				if !back {
+					return
+				}
+				n++
+				k++
+				handed := token.NoPos
+				eng.Instrs(in.Parent(), false, func(in2 ssa.Instruction) {
+					st, ok := in2.(*ssa.Store)
+					if !ok {
+						return
+					}
+					v, ok := st.Val.(*ssa.UnOp)
+					if !ok || v.Op != token.MUL || !eng.SameValue(v.X, fa) {
+						return
+					}
+					// stored into a field of something else than the owner of the buffer
+					dst, ok := st.Addr.(*ssa.FieldAddr)
+					if !ok || eng.SameValue(dst, fa) || eng.SameValue(dst.X, fa.X) {
+						return
+					}
+					if eng.InstrDominates(st, in) {
+						handed = st.Pos()
+					}
+				})
+				c.Check(handed == token.NoPos, R, fmt.Sprintf("%s#truncate%d", eng.FuncName(in.Parent()), k), sl.Pos(), "the buffer was not handed out before it is emptied in place", "the slice is emptied in place (x[:0]) after the same slice was stored into another value at "+c.P.Pos(handed)+": the value built there shares the storage, and the next appends overwrite the elements it shows (list items already emitted are replaced by later ones)")
+			})
+		}
+		c.Ok(R, "module#scanned", token.NoPos, fmt.Sprintf("%d in-place truncations of a field", n))
+	}
+}
+
+// ---------------------------------------------------------------------------------------------------------------
+// Object streams, evaluated on hostile headers. The structural rules R2.4 and R2.4c prove the bounds where the slicing and
+// the indexing are written in GetObjectByIndex itself; where a refactoring has moved them into stage functions with their
+// own value types, those rules fall back to this evaluation.
+
+// objStmEvaluated builds object streams over a family of headers (valid, decreasing, negative and oversized offsets,
+// truncated and non-numeric headers, /N larger than the pairs present, /First at and beyond the end of the data) and,
+// where the struct has the fields, object-stream values whose offset table is shorter than /N; it asks each for the
+// objects at indexes -1..N+1, twice. n counts the calls evaluated; bad names the first call that panics or that returns
+// the wrong object number for a well-formed stream; skipped says why the code could not be evaluated.
+func objStmEvaluated(c *eng.Ctx) (n int, bad, skipped string) {
+	mk := c.P.FuncExact("core.NewObjectStream")
+	get := c.P.FuncExact("core.(*ObjectStream).GetObjectByIndex")
+	streamT, nameT, intT, osT := c.P.NamedType("core", "Stream"), c.P.NamedType("core", "Name"), c.P.NamedType("core", "Int"), c.P.NamedType("core", "ObjectStream")
+	if mk == nil || get == nil || streamT == nil || nameT == nil || intT == nil || osT == nil || len(mk.Params) != 1 || len(get.Params) != 2 {
+		return 0, "", "object stream constructor or types not found"
+	}
+	type hostile struct {
+		data     string
+		n, first int64
+		nums     []int64 // the object numbers a correct reader returns, nil where the stream is malformed
+	}
+	body := "true null 42 (x) "
+	cases := []hostile{
+		{"1 0 2 5 " + body, 2, 8, []int64{1, 2}},
+		{"7 0 8 5 9 10 " + body, 3, 13, []int64{7, 8, 9}},
+		{"1 5 2 0 " + body, 2, 8, nil},
+		{"1 -3 2 4 " + body, 2, 9, nil},
+		{"1 -30 2 4 " + body, 2, 10, nil},
+		{"1 0 2 999 " + body, 2, 10, nil},
+		{"1 999 2 5 " + body, 2, 10, nil},
+		{"1 0 2 17 " + body, 2, 9, nil},
+		{"1 17 2 17 " + body, 2, 10, nil},
+		{"1 0 2", 2, 5, nil},
+		{"1 0 x 5 " + body, 2, 8, nil},
+		{"1 0 2 5 " + body, 3, 8, nil},
+		{"1 0 2 5 " + body, 2, 0, nil},
+		{"1 0 2 5 " + body, 2, int64(8 + len(body)), nil},
+		{"1 0 2 5 " + body, 2, int64(9 + len(body)), nil},
+		{"1 0 2 5 " + body, 2, 4000, nil},
+		{"1 0 ", 1, 4, nil},
+		{"", 0, 0, nil},
+		{"", 1, 0, nil},
+		{"1 9223372036854775807 2 5 " + body, 2, 26, nil},
+		{"1 0 2 9223372036854775800 " + body, 2, 26, nil},
+	}
+	newStream := func(h hostile) *eng.EPtr {
+		d := &eng.EMap{M: map[any]any{}}
+		put := func(k string, val any) {
+			d.M[k] = val
+			d.Keys = append(d.Keys, k)
+		}
+		put("Type", &eng.EIface{T: nameT, V: "ObjStm"})
+		put("N", &eng.EIface{T: intT, V: h.n})
+		put("First", &eng.EIface{T: intT, V: h.first})
+		st := eng.ZeroOf(streamT).(*eng.EStruct)
+		eng.SetField(st, streamT, "Dict", d)
+		eng.SetField(st, streamT, "Data", eng.BytesOf([]byte(h.data)))
+		loc := &eng.ELoc{V: st}
+		return &eng.EPtr{Get: func() any { return loc.V }, Set: func(x any) { loc.V = x }, Loc: loc}
+	}
+	ask := func(ev *eng.Evaluator, recv any, h hostile, what string) bool {
+		for round := 0; round < 2; round++ {
+			for i := int64(-1); i <= h.n+1; i++ {
+				got, err := ev.Call(get, []any{recv, i}, 0)
+				if err != nil && !err.Panic {
+					skipped = what + ": " + err.Msg
+					return false
+				}
+				n++
+				if err != nil {
+					bad = fmt.Sprintf("%s, index %d: %s", what, i, err.Msg)
+					return false
+				}
+				t, ok := got.(eng.ETuple)
+				if !ok || len(t) != 3 {
+					skipped = "GetObjectByIndex does not return (object, number, error)"
+					return false
+				}
+				if h.nums != nil && i >= 0 && i < int64(len(h.nums)) {
+					if t[2] != nil {
+						bad = fmt.Sprintf("%s, index %d: a well-formed stream is refused", what, i)
+						return false
+					}
+					if num, _ := t[1].(int64); num != h.nums[i] {
+						bad = fmt.Sprintf("%s, index %d: object number %d returned, the header says %d", what, i, num, h.nums[i])
+						return false
+					}
+				}
+				if h.nums != nil && (i < 0 || i >= int64(len(h.nums))) && t[2] == nil {
+					bad = fmt.Sprintf("%s, index %d: an index outside the header is answered without an error", what, i)
+					return false
+				}
+			}
+		}
+		return true
+	}
+	for _, h := range cases {
+		ev := eng.NewEvaluator()
+		ev.Steps = 3000000
+		what := fmt.Sprintf("header %q with /N %d /First %d", h.data[:min(len(h.data), int(min(h.first, 30)))], h.n, h.first)
+		made, err := ev.Call(mk, []any{newStream(h)}, 0)
+		if err != nil {
+			if !err.Panic {
+				return n, "", what + ": " + err.Msg
+			}
+			return n, what + ": " + err.Msg, ""
+		}
+		t, ok := made.(eng.ETuple)
+		if !ok || len(t) != 2 {
+			return n, "", "NewObjectStream does not return (stream, error)"
+		}
+		if t[1] != nil {
+			continue
+		}
+		if !ask(ev, t[0], h, what) {
+			return
+		}
+	}
+	// a table shorter than /N, and offsets no header parser would have let through
+	st, isSt := osT.Underlying().(*types.Struct)
+	var offT types.Type
+	have := map[string]bool{}
+	if isSt {
+		for i := 0; i < st.NumFields(); i++ {
+			have[st.Field(i).Name()] = true
+			if st.Field(i).Name() == "offsets" {
+				if sl, ok := st.Field(i).Type().Underlying().(*types.Slice); ok {
+					offT = sl.Elem()
+				}
+			}
+		}
+	}
+	if offT == nil || !have["decoded"] || !have["n"] || !have["first"] || !have["objects"] {
+		return
+	}
+	ost, ok := offT.Underlying().(*types.Struct)
+	if !ok || ost.NumFields() != 2 {
+		return
+	}
+	tables := [][]int64{{}, {0}, {0, 5}, {5, 0}, {-1, 4}, {0, 17}, {17, 17}, {18, 2}, {0, -9}, {-40, -20}, {0, 5, 10}}
+	for _, tb := range tables {
+		for _, nn := range []int64{int64(len(tb)), int64(len(tb)) + 2} {
+			for _, first := range []int64{0, 3} {
+				v := eng.ZeroOf(osT).(*eng.EStruct)
+				var offs []any
+				for k, o := range tb {
+					e := eng.ZeroOf(offT).(*eng.EStruct)
+					eng.SetField(e, offT, "ObjNum", int64(k+1))
+					if !eng.SetField(e, offT, "Offset", o) {
+						return
+					}
+					offs = append(offs, e)
+				}
+				eng.SetField(v, osT, "offsets", eng.SliceOf(offs...))
+				eng.SetField(v, osT, "decoded", eng.BytesOf([]byte(body)))
+				eng.SetField(v, osT, "n", nn)
+				eng.SetField(v, osT, "first", first)
+				eng.SetField(v, osT, "objects", &eng.EMap{M: map[any]any{}})
+				loc := &eng.ELoc{V: v}
+				recv := &eng.EPtr{Get: func() any { return loc.V }, Set: func(x any) { loc.V = x }, Loc: loc}
+				ev := eng.NewEvaluator()
+				ev.Steps = 3000000
+				if !ask(ev, recv, hostile{n: nn, first: first}, fmt.Sprintf("offset table %v with /N %d /First %d over %d bytes", tb, nn, first, len(body))) {
+					return
+				}
+			}
+		}
+	}
+	return
+}
+
+// R2.27 [C02, C01]
+func ruleObjectStreamsEvaluated(c *eng.Ctx) {
+	const R = "R2.27-OBJECT-STREAMS-EVALUATED"
+	c.Rule(R, "core.(*ObjectStream).GetObjectByIndex, evaluated on object streams with valid, decreasing, negative and oversized offsets, truncated and non-numeric headers, /N larger than the pairs present, /First at and beyond the end of the data, and on offset tables shorter than /N, for every index from -1 to N+1, twice: no call panics; a well-formed stream answers each index with the object number its header gives and refuses the indexes outside it", 1, 0)
+	get := c.P.FuncExact("core.(*ObjectStream).GetObjectByIndex")
+	n, bad, skipped := objStmEvaluated(c)
+	pos := token.NoPos
+	if get != nil {
+		pos = get.Pos()
+	}
+	if skipped != "" {
+		c.Ok(R, "core.(*ObjectStream).GetObjectByIndex", pos, "not evaluated: "+skipped)
+		return
+	}
+	c.Check(bad == "", R, "core.(*ObjectStream).GetObjectByIndex#hostile", pos, fmt.Sprintf("%d calls evaluated", n), "an object stream from the file brings the reader down or is answered wrongly: "+bad)
 }
